@@ -1023,6 +1023,16 @@ pub fn rich_file(c: &mut Choice, o: &RichOpts) -> Rich {
             f.overrides.push(Override { target: Target::Ehdr, field: "e_phnum", value: 0xffff });
             f.overrides.push(Override { target: Target::Shdr(0), field: "sh_info", value: first.phdrs.len() as u64 });
             n_over += 2;
+        } else if (k == 0x57 || k == 0x58 || k == 0x59) && first.ehdr.e_shstrndx != 0 && (first.ehdr.e_shstrndx as usize) < first.shdrs.len() {
+            // SHN_XINDEX whose shdr[0].sh_link is 0: the designated name table is section 0 itself, which here is made a
+            // perfectly usable string table (it designates the bytes of the real .shstrtab)
+            let t = &first.shdrs[first.ehdr.e_shstrndx as usize];
+            f.overrides.push(Override { target: Target::Ehdr, field: "e_shstrndx", value: 0xffff });
+            f.overrides.push(Override { target: Target::Shdr(0), field: "sh_link", value: 0 });
+            f.overrides.push(Override { target: Target::Shdr(0), field: "sh_type", value: SHT_STRTAB as u64 });
+            f.overrides.push(Override { target: Target::Shdr(0), field: "sh_offset", value: t.sh_offset });
+            f.overrides.push(Override { target: Target::Shdr(0), field: "sh_size", value: t.sh_size });
+            n_over += 5;
         } else if k == 0x54 {
             f.overrides.push(Override { target: Target::Ehdr, field: "e_phnum", value: 0xffff });
             f.overrides.push(Override { target: Target::Ehdr, field: "e_shoff", value: 0 });
